@@ -1521,7 +1521,7 @@ func (self *Aof) LoadAofFile(filename string, lock *AofLock, expriedTime int64, 
 
 		if lock.CommandType == protocol.COMMAND_UNLOCK {
 		} else if lock.ExpriedFlag&protocol.EXPRIED_FLAG_MILLISECOND_TIME != 0 {
-			if lock.ExpriedFlag&protocol.EXPRIED_FLAG_UNLIMITED_EXPRIED_TIME == 0 && lock.ExpriedTime > 0 && int64(lock.CommandTime+uint64(lock.ExpriedTime)/1000) <= expriedTime {
+			if lock.ExpriedFlag&protocol.EXPRIED_FLAG_UNLIMITED_EXPRIED_TIME == 0 && lock.ExpriedTime > 0 && int64(lock.CommandTime+(uint64(lock.ExpriedTime)+999)/1000) <= expriedTime {
 				continue
 			}
 		} else if lock.ExpriedFlag&protocol.EXPRIED_FLAG_MINUTE_TIME != 0 {
